@@ -141,6 +141,17 @@ CHECKS = {
         note=MM + "; the exception class of a refusal is not constrained.",
         technique="TLA+ spec of the API + TLC model checking; histories replayed on real objects; TLC trace validation",
         design="5 (C18)"),
+    "C17": dict(
+        text=("specs/CsrBuilder.tla defines the layout of as_memory_map() by folding the MemoryMap "
+              "specification's add_resource rule; TLC model-checks CsrBuilder_MC (geometries incl. granularity < "
+              "data width, widths 0/9/17, explicit/implicit offsets, scopes, freeze) with the statement of C17 "
+              "(offset x granularity / data_width, first size-aligned address after the previous register, "
+              "power-of-two sizes, scope-qualified names, no silent adjustment, frozen accepts nothing) checked "
+              "on every reachable builder state; TLC -simulate behaviours and random call sequences with invalid "
+              "arguments are executed on real csr.Builder objects and validated by TLC."),
+        note=MM + "; an explicit offset is honoured exactly even when not size-aligned (as the property states).",
+        technique="TLA+ spec of the API + TLC model checking; histories replayed on real objects; TLC trace validation",
+        design="5 (C17)"),
 }
 
 PENDING = "check not built yet in this round; see DESIGN.md section 13 for the build order"
